@@ -26,3 +26,8 @@ package crypto
 //@   trusted
 //@   modifies os(hash)
 //@   defines value: hash != nil ==> result == hashString(hashid(hash), s, firstHalf)
+
+// Sign serialises the object and signs it; the object itself is only read.
+//@ func crypto.Sign
+//@   requires valid(signer)
+//@   modifies os(signer)
